@@ -21,6 +21,10 @@
 (* second before / exactly at / one second after every pending deadline    *)
 (* interleave between reconciles.                                          *)
 (*                                                                         *)
+(* The history records, for every reconcile, the deletes the model       *)
+(* expects (del); the check compares them with what the real controller    *)
+(* did and reports differences as MODEL-DRIFT notes (never a verdict).     *)
+(*                                                                         *)
 (* The mechanism constants select the controller's decision procedure:     *)
 (* the values of Reapers_MC.cfg are the documented behaviour; each         *)
 (* Reapers_Weak*.cfg changes one of them (an off-by-one, a dropped check,  *)
@@ -112,7 +116,7 @@ Expire(c, f) ==
        /\ now' = IF ok THEN now + 1 ELSE now
        /\ last' = IF ok THEN [actor |-> "expire", ok |-> G_C16_Expiration(cl, now)] ELSE NoLast
        /\ UNCHANGED <<node, listed, bg>>
-       /\ Hist([a |-> "Expire", c |-> c, f |-> f])
+       /\ Hist([a |-> "Expire", c |-> c, f |-> f, del |-> IF ok THEN {c} ELSE {}])
 
 \* nodeclaim.garbagecollection: list NodeClaims, provider List, per candidate a Node lookup by provider id, Delete.
 \* lf = the candidates whose Node lookup fails.
@@ -136,7 +140,7 @@ Gc(f, lf) ==
                   ELSE [actor |-> "gc",
                         ok |-> \A c \in delOk : G_C16_GarbageCollection(claim[c], f # "provList", listed, c \notin lf, all)]
        /\ UNCHANGED <<now, node, listed, bg>>
-       /\ Hist([a |-> "Gc", f |-> f, lf |-> lf])
+       /\ Hist([a |-> "Gc", f |-> f, lf |-> lf, del |-> delOk])
 
 \* nodeclaim.lifecycle liveness (bound through Lifecycle.tla's driver as well): Get NodePool, Delete
 Live(c, f) ==
@@ -150,7 +154,7 @@ Live(c, f) ==
        /\ MarkDeleted(IF ok THEN {c} ELSE {})
        /\ last' = IF ok THEN [actor |-> "live", ok |-> G_C16_Liveness(cl, now, LT, RT)] ELSE NoLast
        /\ UNCHANGED <<now, node, listed, bg>>
-       /\ Hist([a |-> "Live", c |-> c, f |-> f])
+       /\ Hist([a |-> "Live", c |-> c, f |-> f, del |-> IF ok THEN {c} ELSE {}])
 
 \* node.health: NodeClaim lookup by provider id, unhealthy condition + toleration, node List of the pool / cluster,
 \* termination-timestamp annotation patch, Delete of the NodeClaim
@@ -182,7 +186,7 @@ Repair(c, f) ==
                                                    !.deleting = @ \/ del]]
        /\ last' = IF del THEN [actor |-> "repair", ok |-> G_C16_Repair(cl, n, now, Policies, all)] ELSE NoLast
        /\ UNCHANGED <<now, node, listed, bg>>
-       /\ Hist([a |-> "Repair", c |-> c, f |-> f])
+       /\ Hist([a |-> "Repair", c |-> c, f |-> f, del |-> IF del THEN {c} ELSE {}])
 
 \* ---------------------------------------------------------------- environment
 Deadlines ==
